@@ -26,7 +26,7 @@ CHECKS = {
           "merging, preconditioner type, exponent override, start step, both intervals, skip thresholds, eigh, relative/absolute epsilon) "
           "plus 17 interacting pairs, on two parameter trees (ranks 0-3; a rank-4 tree in thorough), replicated and sharded - and, for every "
           "structural option (block size, merging, preconditioner type, skip rules, exponent, eigh, refresh interval), under jax.pmap "
-          "over 2 (3, 4) forced host devices on two trees (most statistics; statistics of sizes 2,3,3) - is driven "
+          "over 2 (3, 4) forced host devices on two trees (most statistics; statistics of sizes 2,3,3), plus x64-late tasks with ridge 1e-9 - is driven "
           "through all histories over {gA,gB} of length <= 4 (5 with g0 in thorough). After every transition the stored statistics are "
           "compared with w1*L+w2*G_(i)G_(i)^T (2e-6) and every update leaf with the documented formula evaluated in float64 on the "
           "stored statistics (2e-4). Process-history dimension: before and after every task the neighbouring configurations are "
@@ -41,7 +41,7 @@ CHECKS = {
           "must never change the stored preconditioner. (b) BFS over every history over {gA, g0, NaN, Inf, 2^40, 2^-40, 2^100} of length "
           "<= 3 (4) with <= 2 (3) fault events for mode x threshold {0,1e-30,0.1,1e30} x epsilon {1e-6,0} x {Newton,eigh} x interval "
           "{1,2} x {float32,float64}, plus float32 pmap over 3 devices (4 statistics padded to 6 work items), x64 with thresholds that float32 rounds down (0.7, 0.01) "
-          "at interval 2, and all-1x1-statistics configurations: after every transition each stored preconditioner is bit-identical to before or (refresh step and "
+          "at interval 2, an infinite threshold at interval 2, SGD grafting with eigh and ridge 0, and all-1x1-statistics configurations: after every transition each stored preconditioner is bit-identical to before or (refresh step and "
           "reported error finite and below the threshold); all stored preconditioner leaves finite; updates finite on histories of "
           "finite moderate gradients.",
           "Fault values beyond the seven classes and fault positions inside a tensor (one fixed entry) are not covered; one known "
@@ -53,7 +53,8 @@ CHECKS = {
           "events {ok, zero}); model invariants are checked by TLC and every path is replayed on the real optimizers: counters advance "
           "by one, statistics/preconditioner/diagnostic leaves change bitwise exactly when the model's versions change, refreshed "
           "preconditioners are the root of the statistics current at that step, warm-up updates equal the graft-only run (1e-6) and "
-          "later ones the preconditioned formula with the stored (sharded: previous) preconditioner.",
+          "later ones the preconditioned formula with the stored (sharded: previous) preconditioner. The fixed-interval grids run with "
+          "coupled weight decay (warm-up also against the reference formula); the quantized pmap mode runs over 2 devices.",
           "The model abstracts values to versions; schedules outside the two tabulated ones and horizons > 40 are not covered.",
           "DESIGN.md §4 C04"),
   "C05": ("explicit-state BFS over all gradient histories for the product graft type x preconditioner representation x start step "
@@ -63,7 +64,7 @@ CHECKS = {
           "({0..3}) x {no exclusion, skip_preconditioning_rank_lt, skip_preconditioning_dim_size_gt}; tearfree: {SGD, RMSPROP, ADAFACTOR} "
           "x {Shampoo, Sketchy} x start x skip rules; every history over {gA,gB,gSeed,g0} of length <= 3 (4) with momentum, Nesterov and "
           "weight decay off and lr=1; the grafting optimizer's own hyper-parameters (diagonal epsilon 1e-3, second-moment decay 1, "
-          "tiny gradients after ordinary ones; tearfree graft decay 1) as extra variants; tearfree tasks run after neighbouring grafting "
+          "tiny gradients after ordinary ones, coupled learning rate, sharded mode; tearfree graft decay 1) as extra variants; tearfree tasks run after neighbouring grafting "
           "configurations were built and stepped in the same process. Per leaf and step: before the start step and for excluded leaves the update equals the closed-form "
           "grafting step (1e-6); afterwards its norm equals the grafting step's norm (1e-5), it is parallel to the gradient "
           "preconditioned with the matrices the stored (packed, quantized, sketched) preconditioners denote (angle bounded by the "
@@ -174,7 +175,8 @@ CHECKS = {
           "DESIGN.md §4 C13"),
   "C14": ("explicit-state BFS over all gradient histories with a crash/restore transition at every reached state (serialize, fresh "
           "optimizer object and trace, restore, continue), bitwise differential oracle",
-          "For 16 optimizers (sm3 stepped op by op on leaves as deserialized; distributed_shampoo trained in a process that enabled x64 "
+          "For 18 optimizers (tearfree Shampoo and Sketchy stepped op by op on the deserialized NumPy leaves, where the restored state "
+          "must be steppable, stay unmodified and agree to 1e-4; sm3 stepped op by op on leaves as deserialized; distributed_shampoo trained in a process that enabled x64 "
           "after the import and resumed in a fresh process with x64 from the start; distributed_shampoo full / eigh+schedule / scheduled refresh interval stepped op by op without jit / "
           "scheduled learning rate under jax_enable_x64 / pmap+quantized / compressed / frequent-directions / sharded / "
           "sharded restored into the target declared by shape_and_dtype_fn / LOBPCG, sm3, tearfree Shampoo / Sketchy / Adafactor-grafted) every state reached by a history over {gA,gB} of length <= 3 (5 "
